@@ -59,8 +59,10 @@ CHECKS = {
         text="Lean 4 proof (full, exact arithmetic): fit_partialFit_append - (s.fit b1).partialFit b2 = s.fit (b1 ++ b2) as an "
              "equality of whole policy states (statistics, expectations, Softmax / Popularity shares, statuses, models, counters), "
              "every policy kind, with or without binarizer; chunked_eq_batch_full / incremental_eq_batch_full for every chunking "
-             "from every reachable state; incremental_eq_batch, neighbors_history, lshInv_partialFit (bucket contents with index "
-             "offsets). Correspondence on chunked histories; batch-vs-chunked twins bit-for-bit (1e-9 linear), chunks beyond 2^10 "
+             "from every reachable state; whole bandit under the neighbourhood policies: radius_chunked_eq_batch / "
+             "knn_chunked_eq_batch (identical state), lsh_chunked_eq_batch + lshSame_impPredict (same planes, rows and bucket "
+             "contents, hence the same answer to every query), clusters_incremental_eq_batch (partial_fit is a fit on the "
+             "accumulated history: same history, labels and per-cluster states given the k-means labels). Correspondence on chunked histories; batch-vs-chunked twins bit-for-bit (1e-9 linear), chunks beyond 2^10 "
              "rows.",
         ref="7 (C06)"),
     "C07": dict(
